@@ -1760,7 +1760,7 @@ impl TreeProp {
             plans.push(ExploreCfg {
                 focus: f, depth: 7, ops,
                 backends: vec![(Kind::Full, 3), (Kind::Optimal, 3), (Kind::Pm, if q { 2 } else { 3 }), (Kind::Rln, 2)],
-                nodedup_len: 1, max_len: 3, positions: all(7), full_obs: true, allow: None, label: "depth7.sparse-removals".into(),
+                nodedup_len: 1, max_len: if q && f == Focus::C07 { 2 } else { 3 }, positions: all(7), full_obs: true, allow: None, label: "depth7.sparse-removals".into(),
             });
             let run = |a: u64, b: u64| -> Vec<u64> { (a..b).collect() };
             let mut ops = vec![TreeOp::Range(0, pat(4)), TreeOp::Set(30, 1), TreeOp::Append(2), TreeOp::Delete(5)];
@@ -1804,9 +1804,12 @@ impl TreeProp {
                 }
                 if with_batch {
                     ops.push(TreeOp::Batch(0, pat(*l), vec![]));
-                    ops.push(TreeOp::Batch(0, vec![], (0..*l).collect()));
-                    if 3 + *l <= c {
-                        ops.push(TreeOp::Batch(0, vec![], (3..3 + *l).collect()));
+                    // (removal runs are carried out position by position by every backend: the quick tier stops at 4097)
+                    if !q || *l <= 4097 {
+                        ops.push(TreeOp::Batch(0, vec![], (0..*l).collect()));
+                        if 3 + *l <= c {
+                            ops.push(TreeOp::Batch(0, vec![], (3..3 + *l).collect()));
+                        }
                     }
                 }
                 for x in [*l - 1, *l, *l + 1, *l + 2, *l + 3] {
@@ -1830,7 +1833,7 @@ impl TreeProp {
             }
             plans.push(ExploreCfg {
                 focus: f, depth: d, ops,
-                backends: vec![(Kind::Full, 3), (Kind::Optimal, 3), (Kind::Pm, 3), (Kind::Rln, 2)],
+                backends: vec![(Kind::Full, 3), (Kind::Optimal, 3), (Kind::Pm, 3), (Kind::Rln, if q { 1 } else { 2 })],
                 nodedup_len: 1, max_len: 3, positions: pos, full_obs: false, allow: Some(one_long), label: "depth16.one-long-operation".into(),
             });
         }
@@ -1912,7 +1915,14 @@ impl Prop for TreeProp {
         // wall-clock cap per plan (a cap that is hit is reported, the run is then not called exhaustive)
         let budget = std::time::Duration::from_secs(ctx.tier.pick(60, 600));
         let mut capped = vec![];
+        // development aid: ZKV_PLAN=<substring> restricts the run to the plans whose label contains it
+        let only = std::env::var("ZKV_PLAN").ok();
         for plan in self.plans(ctx.tier) {
+            if let Some(o) = &only {
+                if !plan.label.contains(o.as_str()) {
+                    continue;
+                }
+            }
             let dl = std::time::Instant::now() + budget;
             let t0 = std::time::Instant::now();
             let s = explore(&plan, findings, Some(dl))?;
